@@ -57,7 +57,7 @@ def run(ctx, report: Report) -> None:
     pmod = src.mod('css_parser')
 
     # ---- R1 --------------------------------------------------------------------------------------------
-    r1 = report.rule('C01-R1', 'the document object is never matched as a parent/ancestor element', floor=2)
+    r1 = report.rule('C01-R1', 'the document object is never matched as a parent/ancestor element', floor=1)
     n_parent_sites = 0
     for q, fn in mmod.functions.items():
         parents_vars = set()
@@ -95,7 +95,7 @@ def run(ctx, report: Report) -> None:
         raise AnalysisError('fewer than two parent -> match_selectors flows found (anchor vanished)')
 
     # ---- R2 + R6: attribute operator patterns (extracted by partial evaluation of parse_attribute_selector) ----------
-    r2 = report.rule('C01-R2', 'an empty operand of ^= $= *= ~= designates nothing', floor=4)
+    r2 = report.rule('C01-R2', 'an empty operand of ^= $= *= ~= designates nothing', floor=46)
     r6 = report.rule('C01-R6', 'attribute operator patterns equal the operator definitions (as languages)', floor=30)
     from .sem import attribute_patterns
     rows = attribute_patterns(ctx)
@@ -168,7 +168,7 @@ def run(ctx, report: Report) -> None:
                                  f'{desc["selector"]} ({which}, flags={fl}): value {res[1]!r} - {side}')
 
     # ---- R3 --------------------------------------------------------------------------------------------
-    r3 = report.rule('C01-R3', 'tokenizer, dispatch and regex-group tables agree', floor=30)
+    r3 = report.rule('C01-R3', 'tokenizer, dispatch and regex-group tables agree', floor=27)
     _, ps = src.func('css_parser.CSSParser.parse_selectors')
     token_names = [r.name.split(':', 1)[1] for r in inv.regexes if r.kind in ('token', 'special-token')]
     dispatch = {}        # key -> list of handler method names called in that branch
@@ -265,7 +265,7 @@ def run(ctx, report: Report) -> None:
     r3.instance({'complex_pseudo': sorted(complex_names)}, key='complex', nontrivial=False)
 
     # ---- R4 --------------------------------------------------------------------------------------------
-    r4 = report.rule('C01-R4', 'combinator tables agree between parser and matcher', floor=3)
+    r4 = report.rule('C01-R4', 'combinator tables agree between parser and matcher', floor=2)
     comb = inv.by_name('token:combine')
     s = rx.System()
     G = s.add('rel', comb.pattern, comb.flags, group='relation')
@@ -328,7 +328,7 @@ def run(ctx, report: Report) -> None:
     single_token_table(ctx, r7)
 
     # ---- R8 --------------------------------------------------------------------------------------------
-    r8 = report.rule('C01-R8', 'class splitting and emptiness use the CSS whitespace set', floor=3)
+    r8 = report.rule('C01-R8', 'class splitting and emptiness use the CSS whitespace set', floor=1)
     for name, ref in (('RE_NOT_WS', '[^ \\t\\n\\r\\f]+'), ('RE_NOT_EMPTY', '[^ \\t\\n\\r\\f]')):
         r = inv.find(f'css_match.{name}')
         d = 'missing'
